@@ -146,7 +146,7 @@ class World:
                     await main(self, nursery)
                     nursery.cancel_scope.cancel()
 
-            trio.run(_root, clock=clock, instruments=[_StepCap(self, 200000)])
+            trio.run(_root, clock=clock, instruments=[_StepCap(self, 50000)])
         finally:
             _SHUFFLER.tape = None
             if gc_was:
